@@ -278,3 +278,23 @@ package dag
 //@   modifies nothing
 //@   ensures [own-metadata-wins] base.Metadata != nil && (key in base.Metadata) ==> result1 && result == base.Metadata[key]
 //@   ensures [extra-otherwise]   !(base.Metadata != nil && (key in base.Metadata)) ==> result1 == (base.extraMetadata != nil && (key in base.extraMetadata)) && (result1 ==> result == base.extraMetadata[key])
+
+// ---- rebuilding the clocks (C05) -------------------------------------------------------------------------------
+// The Lamport times stored with a commit are a function of that commit (git objects are immutable).
+//@ spec func packCreate(h repository.Hash) lamport.Time
+//@ spec func packEdit(h repository.Hash) lamport.Time
+//@ func readOperationPackClock
+//@   trusted
+//@   modifies nothing
+//@   ensures result2 == nil ==> result == packCreate(commit.Hash) && result1 == packEdit(commit.Hash)
+// readClockNoCheck (used when clocks are missing at opening): the edit clock is lifted to the edit time of the
+// entity's head commit - the largest of the entity by the clock-edge rule - and the creation clock to the
+// creation time stored in the root commit it walks back to.
+//@ func readClockNoCheck
+//@   props C05
+//@   requires repo != nil
+//@   modifies repository.clockSeen, repository.mutSeq
+//@   opt trusted_frame
+//@   ensures [edit-clock-covers-head] result == nil ==> (ref in repository.refs) && repository.clockSeen[def.Namespace + "-edit"] >= packEdit(repository.refs[ref])
+//@   check [create-clock-covers-root] result == nil ==> len(commit.Parents) == 0 && repository.clockSeen[def.Namespace + "-create"] >= packCreate(commit.Hash)
+//@   ensures [monotone] forall n string :: { repository.clockSeen[n] } repository.clockSeen[n] >= old(repository.clockSeen[n])
